@@ -13,6 +13,12 @@ def main():
     except pl.Broken as b:
         print("setup: ", b.obligation, b.detail[-3000:])
         return 1
+    try:
+        import macrofront
+        macrofront.build()
+    except pl.Broken as b:
+        print("setup: ", b.obligation, b.detail[-3000:])
+        return 1
     print("setup: prepared", {k: (round(v, 1) if isinstance(v, float) else v) for k, v in t.items()})
     mods = sorted("QtyModel.Props." + os.path.basename(p)[:-5]
                   for p in glob.glob(os.path.join(pl.LEAN, "QtyModel/Props/*.lean")))
